@@ -57,7 +57,7 @@ def run(ck):
             g = dict(g); g["orc"] = 0
             g["calls"] = [pcall(a, f, extra=False) for a in PACKERS for f in FMTS]
             groups.append(g)
-    for g in scope.q_scope(ck, 4 if q else 5, 8, [6], minv=1) + scope.q_scope(ck, 4, 7, [12], minv=1):
+    for g in scope.q_scope(ck, 4 if q else 5, 8, [6], minv=1) + scope.q_scope(ck, 4, 7, [12], minv=1) + scope.q_scope(ck, 3 if q else 4, 7, [5, 7], minv=1):
         g = dict(g); g["orc"] = 0
         g["calls"] = [pcall(a, f, extra=False) for a in COVERS for f in FMTS]
         groups.append(g)
